@@ -75,7 +75,7 @@ const c10Grid = 64
 
 func (c10) ID() string     { return "C10" }
 func (c10) Level() string  { return "fault_enumeration" }
-func (c10) QuickRuns() int { return c10Grid * 900 }
+func (c10) QuickRuns() int { return c10Grid * 7200 }
 func (c10) Rule() string {
 	return "fault grid: for each seeded base run (every variant, 1-6 TTLs, seeded topology and timing) 64 slots are executed with one injected fault each: handle construction fails; 1st/2nd SetPacketFilter fails; k-th WriteTo fails (k=1..8); k-th Read fails fatally (k=1..20), returns a spurious deadline-exceeded (k=1..10) or zero bytes (k=1..10); k-th SetReadDeadline fails (k=1..8); plus 5 slots with 2-3 seeded faults. Run index i = base*64 + slot, so every slot of every base is covered systematically; non-trivial = the fault actually fired (k within the calls the run makes); distinct = distinct (variant, operation, k, class, base shape)"
 }
@@ -186,7 +186,13 @@ func (c10) Check(out *sim.Outcome, ri *RunInfo) []Violation {
 			}
 		}
 	}
-	if len(fired) > 1 && cs.Err != nil && fatal && len(sentinelsIn(cs.Err)) == 0 {
+	allFatal := true
+	for _, f := range fired {
+		if f.Class != "fatal" {
+			allFatal = false // a zero-length read or spurious deadline may fail the run with an error of its own
+		}
+	}
+	if len(fired) > 1 && cs.Err != nil && fatal && allFatal && len(sentinelsIn(cs.Err)) == 0 {
 		vs = append(vs, Violation{Rule: "C10.cause-lost", Detail: fmt.Sprintf("several faults fired (%v) but the returned error wraps none of them: %v", fired, cs.Err), Facts: facts("variant", variant, "op", "multi", "class", "fatal")})
 	}
 	if !fatal {
@@ -229,7 +235,7 @@ func init() { register(c15{}) }
 
 func (c15) ID() string     { return "C15" }
 func (c15) Level() string  { return "exploration" }
-func (c15) QuickRuns() int { return 24000 }
+func (c15) QuickRuns() int { return 120000 }
 func (c15) Rule() string {
 	return "traceroute.RunTraceroute with 0-4 runs and 0-6 end-to-end probes of every protocol/method, with and without public-IP collection (providers succeeding, failing permanently, all failing) and reverse DNS; a seeded subset of the endpoints (by role and ordinal) fails at its first send or an early read with its own sentinel error; per-flow delays and the choice tape vary the completion order; non-trivial = at least two concurrent endpoints existed; distinct = distinct (protocol, counts, failing subset, topology) shapes"
 }
@@ -391,7 +397,7 @@ var c20Faults = []string{"none", "filter1", "filter2", "write1", "write2", "read
 
 func (c20) ID() string     { return "C20" }
 func (c20) Level() string  { return "fault_enumeration" }
-func (c20) QuickRuns() int { return len(c20Methods) * len(c20Caps) * len(c20Faults) * 4 * 30 }
+func (c20) QuickRuns() int { return len(c20Methods) * len(c20Caps) * len(c20Faults) * 4 * 300 }
 func (c20) Rule() string {
 	return "finite matrix, enumerated by run index: TCP method {syn, sack, prefer_sack, \"\"} x target capability {listening with SACK-permitted +/- timestamps, listening without SACK-permitted, ACKs without SACK blocks, port closed (real ECONNREFUSED), TCP connect failing with ENETUNREACH (policy-routing rule in the worker's network namespace), handshake never captured} x injected non-capability failure {none, 1st/2nd filter install, 1st/2nd send, 1st/3rd read, handle construction} x end-to-end probes 0..3; topology, timing and the choice tape are seeded per repetition; non-trivial = a TCP endpoint was created; distinct = distinct matrix cells x topology shapes"
 }
